@@ -10,30 +10,43 @@ import LibfiberVerif.Proof.MultiChanS5
 
 namespace LibfiberVerif.MultiChan
 
-theorem inv_step (s s' : St) (e : Ev) (hi : Inv s) (hs : step s e = some s') : Inv s' := by
-  cases e with
-  | callSend f v => exact inv_step_callSend s s' f v hi hs
-  | retSend f => exact inv_step_retSend s s' f hi hs
-  | callRecv f => exact inv_step_callRecv s s' f hi hs
-  | retRecv f v => exact inv_step_retRecv s s' f v hi hs
-  | fsub f old => exact inv_step_fsub s s' f old hi hs
-  | fadd f old => exact inv_step_fadd s s' f old hi hs
-  | handoff f g => exact inv_step_handoff s s' f g hi hs
-  | rHigh f h => exact inv_step_rHigh s s' f h hi hs
-  | rLow f l => exact inv_step_rLow s s' f l hi hs
-  | wHigh f h => exact inv_step_wHigh s s' f h hi hs
-  | wLow f l => exact inv_step_wLow s s' f l hi hs
-  | rBuf f i x => exact inv_step_rBuf s s' f i x hi hs
-  | wBuf f i x => exact inv_step_wBuf s s' f i x hi hs
-  | rWaiters f w => exact inv_step_rWaiters s s' f w hi hs
-  | wWaiters f w => exact inv_step_wWaiters s s' f w hi hs
-  | rScratch f g x => exact inv_step_rScratch s s' f g x hi hs
-  | wScratch f g x => exact inv_step_wScratch s s' f g x hi hs
-  | wStateWaiting f => exact inv_step_wStateWaiting s s' f hi hs
-  | wStateReady f g => exact inv_step_wStateReady s s' f g hi hs
+/-- the list discipline and the capacity never change -/
+theorem two_step (s s' : St) (e : Ev) (hs : step s e = some s') : s'.two = s.two ∧ s'.cap = s.cap := by
+  cases e <;> simp only [step] at hs
+  all_goals (repeat' (split at hs))
+  all_goals (try simp at hs)
+  all_goals (try contradiction)
+  all_goals (first | (subst hs; exact ⟨rfl, rfl⟩) | (obtain ⟨_, hs⟩ := hs; subst hs; exact ⟨rfl, rfl⟩))
 
-theorem inv_of_run {cap : Nat} {es : List Ev} {s : St} (h : (sys cap).run es = some s) : Inv s :=
-  Sys.inv_of_run (sys cap) Inv (inv_init cap) (fun s e s' hi hs => inv_step s s' e hi hs) h
+theorem inv_step (s s' : St) (e : Ev) (htwo : s.two = false) (hi : Inv s) (hs : step s e = some s') : Inv s' := by
+  cases e with
+  | callSend f v => exact inv_step_callSend s s' f v htwo hi hs
+  | retSend f => exact inv_step_retSend s s' f htwo hi hs
+  | callRecv f => exact inv_step_callRecv s s' f htwo hi hs
+  | retRecv f v => exact inv_step_retRecv s s' f v htwo hi hs
+  | fsub f old => exact inv_step_fsub s s' f old htwo hi hs
+  | fadd f old => exact inv_step_fadd s s' f old htwo hi hs
+  | handoff f g => exact inv_step_handoff s s' f g htwo hi hs
+  | rHigh f h => exact inv_step_rHigh s s' f h htwo hi hs
+  | rLow f l => exact inv_step_rLow s s' f l htwo hi hs
+  | wHigh f h => exact inv_step_wHigh s s' f h htwo hi hs
+  | wLow f l => exact inv_step_wLow s s' f l htwo hi hs
+  | rBuf f i x => exact inv_step_rBuf s s' f i x htwo hi hs
+  | wBuf f i x => exact inv_step_wBuf s s' f i x htwo hi hs
+  | rWaiters f w => exact inv_step_rWaiters s s' f w htwo hi hs
+  | wWaiters f w => exact inv_step_wWaiters s s' f w htwo hi hs
+  | rScratch f g x => exact inv_step_rScratch s s' f g x htwo hi hs
+  | wScratch f g x => exact inv_step_wScratch s s' f g x htwo hi hs
+  | wStateWaiting f => exact inv_step_wStateWaiting s s' f htwo hi hs
+  | wStateReady f g => exact inv_step_wStateReady s s' f g htwo hi hs
+  | rSWaiters f w => exact inv_step_rSWaiters s s' f w htwo hi hs
+  | wSWaiters f w => exact inv_step_wSWaiters s s' f w htwo hi hs
+
+theorem inv_of_run {cap : Nat} {es : List Ev} {s : St} (h : (sys false cap).run es = some s) : Inv s := by
+  have : s.two = false ∧ Inv s :=
+    Sys.inv_of_run (sys false cap) (fun s => s.two = false ∧ Inv s) ⟨rfl, inv_init cap⟩
+      (fun s e s' hi hs => ⟨(two_step s s' e hs).1.trans hi.1, inv_step s s' e hi.1 hi.2 hs⟩) h
+  exact this.2
 
 /-! ### no lost wake-up while the waiter list is homogeneous -/
 
